@@ -213,13 +213,11 @@ pub(crate) fn c03_erased_ctxt_boxed_frame() {
     kani::cover!(true);
 }
 
-/// Every forwarding context - &C, Option<C>, Box<C>, Arc<C> and dyn ErasedCtxt - dispatches open_root, open_push and
+/// Every forwarding context - &C, Option<C>, Box<C>, Arc<C>, AssertInternal<C> and dyn ErasedCtxt - dispatches open_root, open_push and
 /// open_disabled to the SAME method of the inner context, with the same properties ("a disabled frame adds
 /// nothing" must not become a push on the erased path the shared runtime uses).
-/// NOT covered on purpose: `emit::runtime::AssertInternal<C>` (core/src/runtime.rs:419) has no `open_disabled` member,
-/// so it falls back to the trait default `open_push(Empty)` on the WRAPPER: adding it as a sixth path makes this
-/// harness fail on the unchanged tree (opened == 2, p == None) - reported as a finding, repair in
-/// findings/fix_assert_internal_open_disabled.diff.
+/// `emit::runtime::AssertInternal<C>` (core/src/runtime.rs:419) is the sixth path: before /repo 9263e12 (finding F27) it had
+/// no `open_disabled` member and fell back to the trait default `open_push(Empty)` on the WRAPPER (opened == 2, p == None).
 #[cfg_attr(kani, kani::proof)]
 #[cfg_attr(kani, kani::unwind(6))]
 pub(crate) fn c03_open_dispatch_contract() {
@@ -227,7 +225,7 @@ pub(crate) fn c03_open_dispatch_contract() {
     let kind: u8 = kani::any();
     kani::assume(kind >= 1 && kind <= 3);
     let via: u8 = kani::any();
-    kani::assume(via <= 4);
+    kani::assume(via <= 5);
     let c = KindCtxt::new();
     let props = [("p", v)];
     fn open<C: Ctxt>(c: C, kind: u8, props: &[(&'static str, u64); 1]) {
@@ -252,9 +250,13 @@ pub(crate) fn c03_open_dispatch_contract() {
             let b = Box::new(&c);
             open(&b, kind, &props)
         }
-        _ => {
+        4 => {
             let a = std::sync::Arc::new(&c);
             open(a.clone(), kind, &props)
+        }
+        _ => {
+            let a = emit::runtime::AssertInternal(&c);
+            open(&a, kind, &props)
         }
     }
     assert!(c.opened.get() == kind);
